@@ -168,6 +168,11 @@ func (s *JavaIdentifierListener) EnterAnnotation(ctx *parser.AnnotationContext) 
 	}
 
 	if !hasEnterClass {
+		// an annotation written as the value of another annotation's argument (@Table(indexes = @Index(..)))
+		// is not an annotation of the class
+		if _, nested := ctx.GetParent().(*parser.ElementValueContext); nested {
+			return
+		}
 		annotation := common_listener.BuildAnnotation(ctx)
 		currentNode.Annotations = append(currentNode.Annotations, annotation)
 	}
